@@ -18,6 +18,11 @@ ENGINES = [
      "kind_free_text": "gcc build of the unmodified eBPF C program against shim headers + Rust codec built from ebpf_obj.rs"},
     {"name": "harness-sys", "path": "/verif/harness/sys", "serves_properties": ["C17"],
      "kind_free_text": "mount-namespace wrapper (overlayfs), fake systemctl, stand-in agent; drives the real proxy_agent_setup"},
+    {"name": "extra-specs", "path": "/verif/checks/x01_status.py", "serves_properties": [],
+     "kind_free_text": "specification coverage beyond the 20 listed properties, same technique and contract: `bin/check X01_STATUS` "
+                       "(Status.tla: agent status aggregation/publication, torn-snapshot and lost-add witnesses) and `bin/check "
+                       "X02_EXTHANDLER` (ExtHandler.tla: extension handler commands and service loop composed with Health.tla and "
+                       "Setup's contract); their findings are listed in known_findings.json under X02_EXTHANDLER"},
     {"name": "harness-ext", "path": "/verif/harness/ext", "serves_properties": ["C20"],
      "kind_free_text": "cargo crate compiling /repo/proxy_agent_extension/src through symlinks; replays TLC graphs"},
 ]
